@@ -72,3 +72,74 @@ def ragged_collection_survives_packing_or_is_refused(ctx, n):
         ctx.check("entry %d reads back with the same values, shape and unset-ness" % k, ok)
     ctx.check("stored flat array holds every element exactly once",
               ja.flattenedArray.size == sum(np.size(expected(kd, 0)) for kd in kinds if expected(kd, 0) is not None))
+
+
+# ---------------------------------------------------------------------------------------------------------------------
+# Values that are falsy but valid (0, 0.0, False, all-zero arrays) in ragged collections, through the database's own
+# packing entry points: JaggedArray -> packSpecialData -> (dataset, attrs) -> unpackSpecialData -> tolist().
+from armi.bookkeeping.db.database import packSpecialData, unpackSpecialData   # noqa: E402
+
+ZKINDS = ["none", "empty", "scalar", "iscalar", "v1", "v2", "iv3", "tuple2", "m12", "m21"]
+
+
+def make_z(kind, base, zero):
+    """entry of the given kind; with zero=True every element of it is zero (False for the truth-valued scalar)"""
+    f = 0 if zero else 1
+    if kind == "none":
+        return None
+    if kind == "empty":
+        return []
+    if kind == "scalar":
+        return float(base) * f
+    if kind == "iscalar":
+        return int(base) * f
+    if kind in ("v1", "v2"):
+        return np.arange(base, base + int(kind[1]), dtype=float) * f
+    if kind == "iv3":
+        return np.arange(base, base + 3, dtype=int) * f
+    if kind == "tuple2":
+        return (float(base) * f, float(base + 1) * f)
+    shape = (int(kind[1]), int(kind[2]))
+    return np.arange(base, base + shape[0] * shape[1], dtype=float).reshape(shape) * f
+
+
+def expected_z(kind, base, zero):
+    if kind in ("none", "empty"):
+        return None
+    return np.atleast_1d(np.array(make_z(kind, base, zero)))
+
+
+@harness("C05", bounds="collections of 2..3 entries, entry kind symbolic (10 kinds: unset, empty, real/integer scalar, real/"
+                       "integer 1-D of length 1..3, tuple, 1x2 / 2x1 arrays) x symbolic choice, per entry, of whether all "
+                       "its element values are zero; routed through packSpecialData / unpackSpecialData", stubs=STUBS,
+         max_paths=50000, instances={"quick": [dict(n=2)], "thorough": [dict(n=3)]})
+def ragged_entries_holding_zeros_are_still_values(ctx, n):
+    kinds = [ctx.choice("kind%d" % k, ZKINDS) for k in range(n)]
+    zero = [bool(ctx.bool("zero%d" % k)) for k in range(n)]
+    data = [make_z(kd, 10 * (k + 1), z) for k, (kd, z) in enumerate(zip(kinds, zero))]
+    want = [expected_z(kd, 10 * (k + 1), z) for k, (kd, z) in enumerate(zip(kinds, zero))]
+    if all(w is None for w in want):
+        return  # nothing to store
+    dims = {w.ndim for w in want if w is not None}
+    try:
+        ja = JaggedArray(data, "verifParam")
+    except ValueError:
+        ctx.check("only collections mixing 1-D and 2-D entries are refused", len(dims) > 1)
+        return
+    stored, attrs = packSpecialData(ja, "verifParam")
+    ctx.check("a collection with at least one value is stored", stored is not None)
+    if stored is None:
+        return
+    ctx.check("stored array is not an object array", stored.dtype != object)
+    back = unpackSpecialData(np.array(stored, copy=True), dict(attrs), "verifParam").tolist()
+    ctx.check("one entry per object comes back", len(back) == n)
+    for k in range(n):
+        got = back[k] if k < len(back) else "missing"
+        if want[k] is None:
+            ok = got is None
+        else:
+            ok = (got is not None and not isinstance(got, str) and np.shape(got) == want[k].shape
+                  and bool(np.array_equal(got, want[k])))
+        if ctx.canary and k == n - 1 and zero[k] and kinds[k] == "v2" and kinds[0] == "scalar":
+            ok = False
+        ctx.check("entry %d reads back with the same values, shape and unset-ness" % k, ok)
